@@ -282,7 +282,7 @@ def _undo_threading(ctx, m, rep, cl):
         mvar = ("bound", repl[2][0], repl[1])
         okb = M.is_call(body) and body[1] == ("global", f_addr.module.name, f_match.name)
         b = bind_args(body, f_match) if okb else None
-        okb = okb and b is not None and b.get(f_match.params[0]) == ap and b.get(f_match.params[1]) is not None and M.group0(b.get(f_match.params[1]), mvar) and b.get(f_match.params[2]) == up
+        okb = okb and b is not None and b.get(f_match.mparams[0]) == ap and b.get(f_match.mparams[1]) is not None and M.group0(b.get(f_match.mparams[1]), mvar) and b.get(f_match.mparams[2]) == up
         rep.ob(cl + ".sub-callable", f_addr.name, okb,
                "callback is %s; expected _anonymize_match(anonymizer, match.group(0), undo_ip_anon)" % show(repl), w, key=cl + ".sub-callable|" + f_addr.name)
     # FileAnonymizer.anonymize_io: both IP call sites receive self.undo_ip_anon
@@ -293,8 +293,8 @@ def _undo_threading(ctx, m, rep, cl):
     seen = {}
     for cs in sites:
         b = bind_args(cs.term, f_addr)
-        an = b.get(f_addr.params[0]) if b else None
-        fl = b.get(f_addr.params[2]) if b else None
+        an = b.get(f_addr.mparams[0]) if b else None
+        fl = b.get(f_addr.mparams[2]) if b else None
         seen[show(an)] = fl
         ok = fl is not None and fl[0] == "attr" and fl[1] == SELF
         rep.ob(cl + ".undo-at-call-site", "anonymize_io:%s" % show(an), ok, "%s receives undo flag %s; expected the constructor's undo field" % (show(an), show(fl)), cs.where,
@@ -836,7 +836,7 @@ def _gate_content(ctx, m, rep, cl):
     """should_anonymize = not (mask(ip_int) or any(ip in n for n in ALL preserved networks)); mask predicate pure."""
     f = m.method(m.v4, "should_anonymize")
     rep.analysed(f)
-    ipint = ("param", f.params[1])
+    ipint = ("param", f.mparams[1])
     for path in m.A.paths(f).paths:
         w = where(f, path.result[2] if path.result else f.node)
         r = path.returned()
@@ -866,14 +866,14 @@ def _gate_content(ctx, m, rep, cl):
     fm = m.method(m.v4, "_is_mask")
     rep.analysed(fm)
     for path in m.A.paths(fm).paths:
-        rep.ob(cl + ".mask-idiom", fm.name, path.kind == "return" and not path.conds and _mask_idiom(path.returned(), ("param", fm.params[1])),
+        rep.ob(cl + ".mask-idiom", fm.name, path.kind == "return" and not path.conds and _mask_idiom(path.returned(), ("param", fm.mparams[1])),
                "mask predicate returns %s; expected a known idiom for 'the 31 adjacent-bit transitions (x ^ (x >> 1)) & 0x7FFFFFFF contain at most one set bit' "
                "(d & ((0xFFFFFFFF ^ d) + 1)) == d, (d & (d - 1)) == 0 or (d & -d) == d — the arithmetic identity itself is a trusted fact, the constants and shape are checked" % show(path.returned())[:200],
                where(fm), key=cl + ".mask-idiom|_is_mask")
         r = path.returned()
         leaves = {s for s in subterms(r) if s[0] in ("param", "global", "attr", "builtin", "unbound")} if r else set()
         real_calls = [e for e, ls in path.calls() if getattr(e, "origin", None) is None and not _is_inlined_helper_call(ctx, e.a, fm)]
-        ok = path.kind == "return" and leaves <= {("param", fm.params[1])} and not real_calls
+        ok = path.kind == "return" and leaves <= {("param", fm.mparams[1])} and not real_calls
         rep.ob(cl + ".mask-pure", fm.name, ok, "mask predicate is a call-free function of its integer argument only (leaves %s)" % sorted(show(x) for x in leaves), where(fm))
 
 
@@ -1025,7 +1025,7 @@ def c17(ctx, rep):
     fn = m.f_dump
     rep.analysed(fn)
     fp = A.paths(fn)
-    outp = ("param", fn.params[1])
+    outp = ("param", fn.mparams[1])
     for path in fp.paths:
         w = where(fn)
         if path.kind not in ("fall", "return"):
@@ -1100,8 +1100,8 @@ def c17(ctx, rep):
         if len(fr.params) < 2:
             rep.fail("C17.renderer", fr.name, "renderer signature changed: %s" % fr.params, where(fr), key="C17.renderer|_ip_to_str")
             continue
-        bp = ("param", fr.params[1])
-        want = ("call", ("builtin", "str"), (("call", ("attr", ("param", fr.params[0]), "make_addr_from_int"), (("call", ("builtin", "int"), (bp, ("const", 2)), ()),), ()),), ())
+        bp = ("param", fr.mparams[1])
+        want = ("call", ("builtin", "str"), (("call", ("attr", ("param", fr.mparams[0]), "make_addr_from_int"), (("call", ("builtin", "int"), (bp, ("const", 2)), ()),), ()),), ())
         rep.ob("C17.renderer", fr.name, r == want, "renderer returns %s; expected str(cls.make_addr_from_int(int(bits, 2))) (the family's own address type)" % show(r), where(fr), key="C17.renderer|_ip_to_str")
     # when and what in anonymize_files
     f_files = p.find_function("anonymize_files")
